@@ -26,6 +26,11 @@ theorem print_read_roundtrip_now (cfg : PCfg) (hC : CfgOK cfg) (x : Obj) (hwf : 
     ∃ y, readAll 10 (printFlat cfg x) = .ok y ∧ objEq x y = true :=
   SlipVerif.Theorems.C03.print_read_roundtrip_partial tables_ok cfg hC x hwf
 
+/-- the pretty text reads back to the same object as the flat text, for the tables as they are now -/
+theorem pretty_read_roundtrip_now (cfg : PCfg) (hC : CfgOK cfg) (margin : Nat) (x : Obj) (hwf : WF x) :
+    ∃ y, readAll 10 (printPretty cfg margin x) = .ok y ∧ readAll 10 (printFlat cfg x) = .ok y ∧ objEq x y = true :=
+  SlipVerif.Theorems.C03.pretty_read_roundtrip tables_ok cfg hC margin x hwf
+
 /-- every character except code 0 reads back, with the character tables as they are now -/
 theorem char_roundtrip_now (c : Char) (hc : c.toNat ≠ 0) (rest : List Char) (hrest : termOrEnd rest = true)
     (fuel rbase : Nat) : read1 rbase (fuel + 1) (printChr c ++ rest) = .ok (.chr c, rest) :=
